@@ -147,7 +147,11 @@ def check_reactive(ctx, batch, inp):
     from flexstack.management.dcc_reactive import DccReactive, DccState
     t_on, start, cbrs = inp["t_on"], inp["start"], inp["cbrs"]
     tid = table_id(t_on)
-    dcc = DccReactive() if t_on is None else DccReactive(t_on_max_us=t_on)
+    try:
+        dcc = DccReactive() if t_on is None else DccReactive(t_on_max_us=t_on)
+    except Exception as e:  # noqa: BLE001 - not a clause of the property: a broken tie (the model constructs for every number)
+        ctx.mismatch("DccReactive(t_on_max_us) constructs", inp, "constructed", f"{type(e).__name__}: {e}")
+        return []
     if start != 0:
         dcc.state = DccState(start)
     elif dcc.state.value != 0:
@@ -195,7 +199,7 @@ def check_reactive(ctx, batch, inp):
                                          f"step {k}: state {cur} -> {new} does not approach band {b}", b, new)
                 ctx.nontriv(("r", tid, cur, c))
         cur = new
-    ctx.count(len(cbrs), "reactive_step_A%d" % tid)
+    ctx.count(len(cbrs), inp.get("kind") or "reactive_step_A%d" % tid)
 
     def cmp(res, obs=obs, inp=inp):
         want = []
@@ -207,7 +211,14 @@ def check_reactive(ctx, batch, inp):
         if res != want:
             ctx.mismatch("DccReactive.update = Dcc.reactive_run", inp, res, want)
 
-    args = [1000 if t_on is None else t_on, start]
+    # the model takes an integer: x <= 500 <=> ceil(x) <= 500 for every real x (infinities -> far on the same side)
+    if t_on is None:
+        m_ton = 1000
+    elif isinstance(t_on, float):
+        m_ton = (10 ** 9 if t_on > 0 else -10 ** 9) if math.isinf(t_on) else math.ceil(t_on)
+    else:
+        m_ton = int(t_on)
+    args = [m_ton, start]
     for c in cbrs:
         args += q(model_num(c))
     batch.add(1, args, cmp)
@@ -330,7 +341,8 @@ def spec_adaptive(p, c_prev, d_prev, cl, clp, g, gp):
 
 
 def check_adaptive(ctx, batch, inp):
-    """inp = {"op": "adaptive", "params": {name: float} | None, "steps": [[cl, clp, g|None, gp|None], ...]}"""
+    """inp = {"op": "adaptive", "params": {name: float} | None, "steps": [[cl, clp, g|None, gp|None], ...],
+              "stored": [cbr_its_s, delta] (optional: the two public attributes are set to a stored state first)}"""
     from flexstack.management.dcc_adaptive import DccAdaptive, DccAdaptiveParameters
     pf = inp["params"]
     if pf is None:
@@ -353,6 +365,9 @@ def check_adaptive(ctx, batch, inp):
     if alg.delta != pv["delta_min"] or alg.cbr_its_s != 0.0:
         ctx.mismatch("DccAdaptive initial state = Dcc.adaptive_init", inp, [0.0, pv["delta_min"]],
                      [alg.cbr_its_s, alg.delta])
+    if inp.get("stored") is not None:
+        # the two attributes are public (documented under "Attributes"): a station that restores a saved state
+        alg.cbr_its_s, alg.delta = float(inp["stored"][0]), float(inp["stored"][1])
     init = (alg.cbr_its_s, alg.delta)
     seq_args = []
     seq_obs = []
@@ -425,7 +440,7 @@ def check_adaptive(ctx, batch, inp):
                     seq_valid = False
                 exact_c, exact_d = xc, xd
         seq_obs.append((acc, c1, d1, seq_valid))
-    ctx.count(len(inp["steps"]), "adaptive_step_default" if pf is None else "adaptive_step_custom")
+    ctx.count(len(inp["steps"]), inp.get("kind") or ("adaptive_step_default" if pf is None else "adaptive_step_custom"))
 
     # whole sequence through the model, from the constructor's state
     def cmpseq(res, seq_obs=seq_obs):
@@ -744,7 +759,7 @@ def check_gate(ctx, batch, inp, adversary=None):
         batch.add(3, gate_args_state(pre) + opargs, cmp1)
         seq_obs.append((kind, t, res, post))
         k += 1
-    ctx.count(len(ops), "gate_op_epoch" if (ops and abs(ops[0][1]) >= 64) else "gate_op")
+    ctx.count(len(ops), inp.get("kind") or ("gate_op_epoch" if (ops and abs(ops[0][1]) >= 64) else "gate_op"))
 
     # whole run through the model from the constructor's state; stops at the first decision that the
     # model takes within the band of its own threshold
@@ -934,6 +949,141 @@ def gate_sweeps(ctx, batch):
     batch.flush()
 
 
+
+# ----------------------------------------------------------------------------------------------
+# audit round: inputs the first generators never produced (design/C19.md "Audit round: gaps closed")
+# ----------------------------------------------------------------------------------------------
+def audit_reactive(ctx, batch):
+    """(a) the measured CBR handed over as int / bool (0 and 1 are values of [0,1]; 2 and -1 are not); (b) the constructor
+    argument as a float between the integers around the table switch (500.0, 500.4, 500.5, 500.9, 499.99, 1e3, inf)"""
+    inside, _ = reactive_reps()
+    for t_on in (None, 500):
+        for start in range(5):
+            for c in (0, 1, True, False):
+                check_reactive(ctx, batch, {"op": "reactive", "t_on": t_on, "start": start, "cbrs": [c] * 5,
+                                            "kind": "reactive_int_cbr"})
+            check_reactive(ctx, batch, {"op": "reactive", "t_on": t_on, "start": start, "cbrs": [1, 0.35, 0, 2, -1, 1, 1, 1, 1],
+                                        "kind": "reactive_int_cbr"})
+    for t_on in (500.0, 500.4, 500.5, 500.9, 499.99, 499.5, 500.0000001, 1000.0, 1e-3, 1e9, INF, -INF, 250.25, True):
+        for start in range(5):
+            for c in (0.55, 0.62, 0.649, 0.65, 0.7, 0.1):
+                check_reactive(ctx, batch, {"op": "reactive", "t_on": t_on, "start": start, "cbrs": [c] * 5,
+                                            "kind": "reactive_float_t_on"})
+    for _ in range(200):
+        check_reactive(ctx, batch, {"op": "reactive", "t_on": ctx.rng.choice((ctx.rng.uniform(498.0, 502.0), ctx.rng.uniform(0, 2000))),
+                                    "start": ctx.rng.randrange(5), "cbrs": [ctx.rng.choice(inside)] * 4 + [random_cbr(ctx.rng)] * 4,
+                                    "kind": "reactive_float_t_on"})
+    batch.flush()
+
+
+def audit_adaptive(ctx, batch):
+    """(a) int / bool CBR arguments, in range (accepted, computed with) and out of range (rejected); (b) runs that reach the
+    upper clamp with the default parameters and then meet a small positive offset (delta must come down from delta_max);
+    (c) evaluations from a stored state: delta exactly at / next to / outside either bound, CBR_ITS-S exactly at the target"""
+    for a in (0, 1, True, False, 2, -1, 0.5):
+        for b in (0, 1, True, False, 2, -1, 0.5):
+            for g in (None, 0, 1):
+                check_adaptive(ctx, batch, {"op": "adaptive", "params": None, "kind": "adaptive_int_cbr",
+                                            "steps": [[a, b, g, g], [0.5, 0.5, None, None], [a, b, None, None]]})
+    check_adaptive(ctx, batch, {"op": "adaptive", "params": None, "kind": "adaptive_int_cbr", "steps": [[0, 0, None, None]] * 30 + [[1, 1, None, None]] * 30})
+    # upper clamp with the defaults: ~205 idle evaluations, then loads that ask for less than alpha * delta_max
+    for level in (0.3, 0.5, 0.66, 0.6799, 0.68, 0.7, 1.0):
+        check_adaptive(ctx, batch, {"op": "adaptive", "params": None, "kind": "adaptive_upper_clamp",
+                                    "steps": [[0.0, 0.0, None, None]] * 215 + [[level, level, None, None]] * 25})
+    # stored states
+    nx = math.nextafter
+    for pf in (None, {"alpha": 0.1, "beta": 0.01, "cbr_target": 0.5, "delta_max": 0.02, "delta_min": 0.001,
+                      "delta_up_max": 0.002, "delta_down_max": -0.001},
+               {"alpha": 0.016, "beta": 0.0012, "cbr_target": 0.68, "delta_max": 0.004, "delta_min": 0.004,
+                "delta_up_max": 0.0005, "delta_down_max": -0.00025}):
+        dmin = 0.0006 if pf is None else pf["delta_min"]
+        dmax = 0.03 if pf is None else pf["delta_max"]
+        tgt = 0.68 if pf is None else pf["cbr_target"]
+        for d in (dmin, dmax, nx(dmin, 0.0), nx(dmin, 1.0), nx(dmax, 0.0), nx(dmax, 1.0), dmax * 2, dmin / 2, 0.0, 1.0,
+                  (dmin + dmax) / 2):
+            for c in (0.0, tgt, nx(tgt, 0.0), nx(tgt, 1.0), 1.0, 0.3):
+                for lvl in (0.0, tgt, 1.0, 0.35):
+                    check_adaptive(ctx, batch, {"op": "adaptive", "params": pf, "stored": [c, d], "kind": "adaptive_stored_state",
+                                                "steps": [[lvl, lvl, None, None]] * 3})
+    for _ in range(150):
+        pf = random_params(ctx.rng)
+        dmin = 0.0006 if pf is None else pf["delta_min"]
+        dmax = 0.03 if pf is None else pf["delta_max"]
+        d = ctx.rng.choice((dmin, dmax, ctx.rng.uniform(dmin, dmax) if dmin < dmax else dmin, dmax + abs(dmax), dmin - abs(dmin)))
+        lvl = ctx.rng.random()
+        check_adaptive(ctx, batch, {"op": "adaptive", "params": pf, "stored": [ctx.rng.random(), d], "kind": "adaptive_stored_state",
+                                    "steps": [random_astep(ctx.rng, lvl) for _ in range(ctx.rng.choice((1, 4, 10)))]})
+    batch.flush()
+
+
+def audit_gate(ctx, batch, n):
+    """(a) time axes that start below zero and cross it: t_pg or t_go exactly 0.0 (a stored time of 0.0 is a time, not
+    "no admission yet"), negative t_pg / t_go; (b) uptime-sized time stamps between the two magnitudes generated before
+    (1e3 .. 1e7 s); (c) int arguments (t, t_on, delta)"""
+    fixed = [
+        # t_go == 0.0 exactly: admitted at -25 ms with the minimum interval in force
+        (1.0, [["admit", -0.025, 0.001], ["query", -0.02, 0], ["admit", -0.02, 0.001], ["admit", -0.01, 0.001],
+               ["query", -1e-6, 0], ["admit", 0.0, 0.001], ["admit", 0.01, 0.001], ["admit", 0.025, 0.001]]),
+        # t_go == 0.0 exactly with the 1 s maximum in force, delta updates while closed
+        (0.0006, [["admit", -1.0, 0.002], ["query", -0.5, 0], ["update", -0.75, 0.0003], ["admit", -0.5, 0.002],
+                  ["update", -0.25, 0.03], ["query", -0.2, 0], ["admit", -0.1, 0.002], ["admit", 0.0, 0.002]]),
+        # B.2 leads to t_go == 0.0: closed interval 0.5 s from -0.25, halved delta ratio
+        (0.004, [["admit", -0.25, 0.002], ["update", -0.2, 0.008], ["query", -0.01, 0], ["admit", -0.01, 0.002],
+                 ["admit", 0.0, 0.002]]),
+        (0.004, [["admit", -0.5, 0.002], ["update", -0.4, 0.004], ["update", -0.3, 0.002], ["update", -0.2, 0.004],
+                 ["query", -0.1, 0], ["admit", -0.1, 0.002], ["query", 0.0, 0], ["admit", 0.0, 0.002]]),
+        # t_pg == 0.0 with several updates while closed
+        (0.01, [["admit", 0.0, 0.001], ["update", 0.01, 0.02], ["update", 0.02, 0.005], ["update", 0.03, 0.01],
+                ["query", 0.09, 0], ["admit", 0.09, 0.001], ["admit", 0.1, 0.001]]),
+        # all negative
+        (0.01, [["admit", -10.0, 0.001], ["admit", -9.95, 0.001], ["update", -9.94, 0.02], ["admit", -9.9, 0.001],
+                ["admit", -9.85, 0.001], ["admit", -5.0, 0.001]]),
+        # int arguments
+        (1, [["admit", 0, 1], ["query", 1, 0], ["admit", 1, 1], ["update", 1, 2], ["admit", 2, 1], ["admit", 3, 1]]),
+        (1, [["admit", -1, 1], ["query", 0, 0], ["admit", 0, 1], ["admit", 1, 1]]),
+    ]
+    for d0, ops in fixed:
+        check_gate(ctx, batch, {"op": "gate", "delta": d0, "ops": ops, "kind": "gate_op_zero_crossing"})
+    rng = ctx.rng
+    for i in range(n):
+        r = rng.random()
+        d0 = rand_delta(rng)
+        while d0 <= 0:
+            d0 = rand_delta(rng)
+        if r < 0.5:
+            # dyadic offsets keep sums exact, so that t_go lands on 0.0 exactly now and then
+            t0 = -rng.choice((0.025, 0.5, 1.0, 2.0, 0.125, 0.25, 16.0)) * rng.choice((1, 1, 2, 3))
+            ops = gate_pattern(rng, t0)
+            kind = "gate_op_zero_crossing"
+        else:
+            t0 = 10 ** rng.uniform(3, 7)
+            ops = gate_pattern(rng, t0)
+            kind = "gate_op_uptime"
+        check_gate(ctx, batch, {"op": "gate", "delta": d0, "ops": ops, "kind": kind})
+    # adversarial around t_go / t_pg on an axis that starts below zero
+    offs = (-3e-9, -1e-9 - 5e-12, -0.5e-9, 0.0, 5e-12, 1e-9, 1e-6)
+    for _ in range(n):
+        d0 = rng.choice((1.0, 0.04, 0.002, 0.0006, 10 ** rng.uniform(-4, 0)))
+        state = {"t": -rng.choice((0.025, 0.05, 0.1, 0.5, 1.0, 1.5)), "n": 0, "len": rng.randrange(4, 30)}
+
+        def adv(gk, state=state):
+            if state["n"] >= state["len"]:
+                return None
+            state["n"] += 1
+            t = state["t"]
+            if gk._t_go is None or rng.random() < 0.15:
+                op = ["admit", t, rng.choice((0.001, 0.002, 1e-4, 0.0006 * 0.5, rand_ton(rng)))]
+            else:
+                base = rng.choice((gk._t_go, gk._t_go, gk._t_pg + 0.025, gk._t_pg + 1.0, 0.0))
+                t = max(t, base + rng.choice(offs))
+                kind = rng.choice(("admit", "admit", "update", "query"))
+                op = [kind, t, rng.choice((0.001, 0.002, rand_ton(rng))) if kind == "admit" else
+                      rand_delta(rng) if kind == "update" else 0.0]
+            state["t"] = max(state["t"], t)
+            return op
+        check_gate(ctx, batch, {"op": "gate", "delta": d0, "ops": [], "kind": "gate_op_zero_crossing"}, adversary=adv)
+    batch.flush()
+
 # ----------------------------------------------------------------------------------------------
 def run_case(ctx, batch, inp):
     op = inp.get("op")
@@ -959,7 +1109,10 @@ def run(ctx):
         "seeded periodic / Poisson / burst / sparse arrival patterns with transmission durations 20 us..4 ms (and "
         "extremes, invalid values) and delta updates every 200 ms or at random times (also from a live DccAdaptive), "
         "time stamps below 64 s and epoch-sized, adversarial arrivals / updates placed within nanoseconds of the "
-        "implementation's own t_go, t_pg + 25 ms, t_pg + 1 s. A case is non-trivial when the evaluation was "
+        "implementation's own t_go, t_pg + 25 ms, t_pg + 1 s. Audit round: CBR as int / bool, float constructor "
+        "arguments around the table switch, default-parameter runs into the upper clamp, evaluations from stored states "
+        "(delta at / next to / outside the bounds, CBR_ITS-S at the target), gate time axes that cross zero (t_pg / t_go "
+        "exactly 0.0, negative), uptime-sized time stamps 1e3..1e7 s, int arguments. A case is non-trivial when the evaluation was "
         "accepted (reactive, adaptive) or the packet was admitted (gate); distinct by (table, state, cbr) / "
         "(state, inputs, parameters) / (time, t_on, delta).")
     batch = Batch(ctx)
@@ -980,6 +1133,11 @@ def run(ctx):
     gate_random(ctx, batch, 3000 if thorough else 300)
     gate_adversarial(ctx, batch, 6000 if thorough else 600)
     gate_with_adaptive(ctx, batch, 200 if thorough else 20)
+    batch.flush()
+    # audit round (kept after the first-generation cases: a failure reported from here was missed by them)
+    audit_reactive(ctx, batch)
+    audit_adaptive(ctx, batch)
+    audit_gate(ctx, batch, 1500 if thorough else 150)
     batch.flush()
     ctx.sample({"reactive": {"t_on": 500, "start": 0, "cbrs": [0.65] * 5},
                 "states": [o[1] for o in check_reactive(ctx, batch, {"op": "reactive", "t_on": 500, "start": 0,
